@@ -804,7 +804,7 @@ pub fn gen_plutus(rng: &mut Rng) -> J {
         let mut sids: Vec<u64> = vec![1, 2, 3, 4, 5];
         let mut mints = vec![];
         for _ in 0..n {
-            if rng.chance(1, 4) { mints.push(json!({"mp": 9, "n": [66], "amt": {"neg": false, "mag_n": jn(5)}})); continue; }
+            if rng.chance(1, 3) { mints.push(json!({"mp": 9 + rng.below(4), "n": [66], "amt": {"neg": false, "mag_n": jn(5)}})); continue; }   // native policies of several keys: some sort below, some above the Plutus ones
             let sid = sids.remove(rng.below(sids.len() as u64) as usize);
             rid += 1;
             let mag = 1 + rng.below(9);
